@@ -391,6 +391,11 @@ def make_cases(tier, rnd):
             cases.append(dict(fn="add_div_mod", widths=[n, n], big_endian=be, host="repeat2", alias=True))
             cases.append(dict(fn="add_sub_two_numbers", widths=[n, n], big_endian=be, host="repeat2", alias=True))
             cases.append(dict(fn="add_subtract_with_compare", widths=[n, n], big_endian=be, host="repeat2", alias=True))
+            if n >= 3:
+                # the second operand is made of the first one's gates, in another order / with other repeats
+                hk = ("rotated2", "reversed2", "other-repeats2")[(n + be) % 3]
+                for fn_ in ("add_div_mod", "add_sub_two_numbers", "add_subtract_with_compare"):
+                    cases.append(dict(fn=fn_, widths=[n, n], big_endian=be, host=hk))
     for ao in (False, True):
         for n in (1, 2, 3):
             cases.append(dict(fn="add_pairwise_xor", widths=[n, n], n=n, add_outputs=ao, named=bool(n % 2), host="dup-outputs"))
